@@ -304,6 +304,11 @@ def mk_stubs():
     # ---- HDF5
     def H5Fcreate(ex, name, flags, fcpl, fapl):
         s = get_str(ex, name).norm()
+        if ex.user.get('stale_tmp') and isinstance(flags, int) and (flags & 4):
+            # H5F_ACC_EXCL on a name that already exists (e.g. the tmp. file of a recorder that was killed) fails; nothing is created
+            pre = exists_var(ex, s)
+            if pre is True or (pre is not False and ex.decide(pre)):
+                ev(ex, 'H5Fcreate_exists', s, flags); return NEG1_64
         st, f = status(ex, 'H5Fcreate')
         fid = env(ex).new('file', name=s, flags=flags, open=True)
         ev(ex, 'H5Fcreate', s, flags, fid, f)
